@@ -11,6 +11,8 @@ from vlib.coqparse import parse
 
 OCC_TOL = 2e-3   # calibrated: correct code gives <= 2e-5 on these problem families (dt*|H| <= 0.3)
 EN_TOL = 5e-3
+M2_TOL = 5e-3   # relative to max(1, <H^2>); correct code gives <= 1e-5 (MPO @ MPO compression at the default precision)
+FID_TOL = 2e-3
 
 
 def trace_stage(ctx, kind, n_cases, tag):
@@ -80,9 +82,10 @@ def U_of_t_factory(case):
 
 def run_e2e(case):
     import emu_mps
-    from pulser.backend import Energy, Occupation
+    from pulser.backend import CorrelationMatrix, Energy, EnergySecondMoment, EnergyVariance, Fidelity, Occupation
 
     prob = case["prob"]
+    n = prob["n"]
     if "slm" in case:
         # a Hamiltonian rebuilt wrongly for a single step shows at that step only: look at every step
         et = [k / prob["steps"] for k in range(1, prob["steps"] + 1)]
@@ -90,7 +93,21 @@ def run_e2e(case):
         et = [0.5, 1.0] if prob["steps"] % 2 == 0 else [1.0]
     with warnings.catch_warnings():
         warnings.simplefilter("ignore")
-        cfg = emu_mps.MPSConfig(observables=[Occupation(evaluation_times=et), Energy(evaluation_times=et)],
+        obs = [Occupation(evaluation_times=et), Energy(evaluation_times=et)]
+        if case.get("more_obs"):
+            obs += [CorrelationMatrix(evaluation_times=et), EnergyVariance(evaluation_times=et),
+                    EnergySecondMoment(evaluation_times=et)]
+        target = None
+        if case.get("fidelity") and not prob["xy"]:
+            # a target given in REGISTER order that is not symmetric under atom permutations
+            b1, b2 = case["fidelity"]
+            amps = {b1: 0.6, b2: 0.8j} if b1 != b2 else {b1: 1.0}
+            obs.append(Fidelity(emu_mps.MPS.from_state_amplitudes(eigenstates=("r", "g"), amplitudes=amps),
+                                evaluation_times=et))
+            target = np.zeros(2 ** n, dtype=complex)
+            for b, a in amps.items():
+                target[int("".join("1" if c == "r" else "0" for c in b), 2)] = a
+        cfg = emu_mps.MPSConfig(observables=obs,
                                 log_level=logging.CRITICAL, optimize_qubit_ordering=case["reorder"])
         Uf = U_of_t_factory(case)
         import emu_mps.optimatrix as optimat
@@ -113,8 +130,20 @@ def run_e2e(case):
         k = round(t * prob["steps"])
         occ = np.array([float(x) for x in res.get_result("occupation", t)])
         en = float(res.get_result("energy", t))
-        out.append(dict(t=t, occ_err=float(np.abs(occ - D.occupation(ref[k], prob["n"])).max()),
-                        en_err=abs(en - D.energy(ref[k], Hs[k - 1]))))
+        e = dict(t=t, occ_err=float(np.abs(occ - D.occupation(ref[k], prob["n"])).max()),
+                 en_err=abs(en - D.energy(ref[k], Hs[k - 1])))
+        if case.get("more_obs"):
+            H = Hs[k - 1]
+            e1 = D.energy(ref[k], H)
+            e2 = float(np.real(np.vdot(ref[k], H @ (H @ ref[k]))))
+            corr = np.array([[complex(x).real for x in row] for row in res.get_result("correlation_matrix", t)])
+            e["corr_err"] = float(np.abs(corr - D.correlation(ref[k], n)).max())
+            e["m2_err"] = abs(float(res.get_result("energy_second_moment", t)) - e2) / max(1.0, abs(e2))
+            e["var_err"] = abs(float(res.get_result("energy_variance", t)) - (e2 - e1 * e1)) / max(1.0, abs(e2))
+        if target is not None:
+            tag = [x for x in res.get_result_tags() if x.startswith("fidelity")][0]
+            e["fid_err"] = abs(float(res.get_result(tag, t)) - abs(np.vdot(target, ref[k])) ** 2)
+        out.append(e)
     return out, tuple(res.atom_order)
 
 
@@ -123,6 +152,14 @@ def e2e_stage(ctx, n_cases):
     for i in range(n_cases):
         case = e2e_case(ctx.rng, xy=(i % 4 == 3), reorder=(i % 2 == 1), local=(i % 3 != 2), slm=(i % 5 in (1, 3, 4)))
         prob = case["prob"]
+        # "each observable it reports": beyond occupation/energy also correlations, energy moments and (for targets
+        # given in register order, with and without a requested reordering) the fidelity
+        case["more_obs"] = i % 2 == 0 or i % 3 == 0
+        if i % 4 in (1, 2) and not prob["xy"]:
+            bits = ["".join(ctx.rng.choice("rg") for _ in range(prob["n"])) for _ in range(2)]
+            if len(set(bits[0])) == 1:  # not permutation symmetric
+                bits[0] = "r" + "g" * (prob["n"] - 1)
+            case["fidelity"] = bits
         try:
             errs, order = run_e2e(case)
         except Exception as ex:  # a run that raises on an accepted sequence
@@ -131,6 +168,15 @@ def e2e_stage(ctx, n_cases):
             continue
         m = max(e["occ_err"] for e in errs)
         worst = max(worst, m)
+        extra_bad = [(k2, e[k2]) for e in errs for k2, tol in (("corr_err", OCC_TOL), ("m2_err", M2_TOL), ("var_err", M2_TOL),
+                                                              ("fid_err", FID_TOL)) if e.get(k2, 0.0) > tol]
+        for k2 in ("corr_err", "m2_err", "var_err", "fid_err"):
+            ctx.extra["e2e_worst_" + k2] = max(ctx.extra.get("e2e_worst_" + k2, 0.0), max(e.get(k2, 0.0) for e in errs))
+        if extra_bad:
+            ctx.violation(f"emu-mps observable {extra_bad[0][0][:-4]} differs from its value on the exactly evolved state by "
+                          f"{extra_bad[0][1]:.3g} (reordering {'on' if case['reorder'] else 'off'})",
+                          {"case": _ser(case), "errors": errs, "atom_order": order,
+                           "finding_key": "observable-" + extra_bad[0][0][:-4]})
         ctx.count_case({"kind": "e2e", "n": prob["n"], "steps": prob["steps"], "xy": prob["xy"],
                         "reorder": case["reorder"], "occ_err": m}, nontrivial=True)
         if m > OCC_TOL or max(e["en_err"] for e in errs) > EN_TOL * max(1.0, prob["n"]):
@@ -148,6 +194,9 @@ def _ser(case):
         out["slm"] = case["slm"]
     if case.get("perm") is not None:
         out["perm"] = case["perm"]
+    for k in ("more_obs", "fidelity"):
+        if case.get(k):
+            out[k] = case[k]
     return out
 
 
@@ -160,6 +209,9 @@ def _deser(c):
         out["slm"] = c["slm"]
     if c.get("perm") is not None:
         out["perm"] = c["perm"]
+    for k in ("more_obs", "fidelity"):
+        if c.get(k):
+            out[k] = c[k]
     return out
 
 
